@@ -49,11 +49,13 @@ META = {
                 'D3 limits (rejections, first byte, line length)',
                 'D4 a mechanism answers OK only on its accepting branch '
                 '(cookie: computed hash == received hash, no exception '
-                'swallowed on the way; EXTERNAL: peer credentials present)'],
+                'swallowed on the way; EXTERNAL: peer credentials present)',
+                'D5 line framing independent of read splitting (shared with '
+                'C04-D5/D6)'],
     'undecided': ['a conforming client with good credentials is accepted '
                   '(mechanisms\' cryptographic / file-system behaviour)',
                   'a wrong cookie is never accepted, beyond D1',
-                  'line splitting across reads (C04-D6)'],
+                  ],
 }
 
 WFA, WFD, WFB = 'WaitingForAuth', 'WaitingForData', 'WaitingForBegin'
@@ -281,6 +283,9 @@ def run(ctx):
         raise AnalysisError('rejection-limit rule matched %d rows' % n_lim)
     _line_mode_limits(ctx)
     _mechanism_acceptance(ctx, mechs)
+    from .c04 import shared_line_framing
+    shared_line_framing(ctx, 'C06.D5', 'C06.D5')
+    ctx.floor('C06.D5', 3)
     ctx.floor('C06.D4', 3)
     ctx.floor('C06.D1', 8)
     ctx.floor('C06.D2', 40)
